@@ -610,15 +610,18 @@ Lemma resume_answer : forall c i s r, c_up c = true -> c_wclosed c = false ->
   match r with
   | RespOk => snd (step c (EResumeResp i r)) = [OResumed i]
   | RespRefused => snd (step c (EResumeResp i r)) = [OCloseReq (c_gen c) i; OStreamClosed i true]
-  | RespConflict => snd (step c (EResumeResp i r)) = [OResumeReq (c_gen c) i (s_down s)] /\
-                    find_s i (c_streams (fst (step c (EResumeResp i r)))) = Some s
+  | RespConflict => snd (step c (EResumeResp i r)) =
+                      (if s_down s && negb (fix_f46 (c_cfg c)) then [OCloseReq (c_gen c) i; OStreamClosed i true]
+                       else [OResumeReq (c_gen c) i (s_down s)])
   end /\
   (* only that stream changes *)
   forall j, j <> i -> find_s j (c_streams (fst (step c (EResumeResp i r)))) = find_s j (c_streams c).
 Proof.
   intros c i s r U W Fi P H. cbn. unfold resume_resp_step. rewrite Fi, P, H, N.eqb_refl, W, U. cbn.
   destruct r; cbn; try (split; [reflexivity|intros j Hj; apply find_upd_other; [reflexivity|congruence]]).
-  split; [split; [reflexivity|exact Fi]|reflexivity].
+  destruct (s_down s && negb (fix_f46 (c_cfg c))); cbn.
+  - split; [reflexivity|intros j Hj; apply find_upd_other; [reflexivity|congruence]].
+  - split; reflexivity.
 Qed.
 
 
@@ -855,7 +858,7 @@ Proof. vm_compute. repeat split. Qed.
 Lemma closed_with_error_only_by_resume : forall c e i, In (OStreamClosed i true) (snd (step c e)) ->
   exists s, find_s i (c_streams c) = Some s /\
     ((exists r, e = EResumeResp i r /\ s_phase s = SResuming /\
-                (r = RespRefused \/ s_held s <> c_gen c \/ c_wclosed c = true)) \/
+                (r = RespRefused \/ (r = RespConflict /\ s_down s = true /\ fix_f46 (c_cfg c) = false) \/ s_held s <> c_gen c \/ c_wclosed c = true)) \/
      (e = ESup i /\ s_phase s = SWaitConn /\ c_status c = Connected /\ writable c = false)).
 Proof.
   intros c e i H.
@@ -873,11 +876,14 @@ Proof.
     destruct (find_s i0 (c_streams c)) as [s|] eqn:F; [|cbn; tauto].
     destruct (s_phase s) eqn:P; try (cbn; tauto).
     destruct ((s_held s =? c_gen c) && negb (c_wclosed c)) eqn:X.
-    + destruct (c_up c); [|cbn; tauto]. destruct r; cbn; [intuition discriminate| |intuition discriminate].
-      intros [H|[H|[]]]; [discriminate|]. inversion H; subst. exists s. split; [exact F|left; exists RespRefused; auto].
+    + destruct (c_up c); [|cbn; tauto]. destruct r; cbn; [intuition discriminate| |].
+      * intros [H|[H|[]]]; [discriminate|]. inversion H; subst. exists s. split; [exact F|left; exists RespRefused; auto].
+      * destruct (s_down s) eqn:Dn; cbn; [|intuition discriminate].
+        destruct (fix_f46 (c_cfg c)) eqn:F46; cbn; [intuition discriminate|].
+        intros [H|[H|[]]]; [discriminate|]. inversion H; subst. exists s. split; [exact F|left; exists RespConflict; split; [reflexivity|split; [auto|right; left; auto]]].
     + destruct (fix_f19 (c_cfg c) && negb (is_closed c)); cbn; [|tauto].
       intros [H|[]]. inversion H; subst. exists s. split; [exact F|left; exists r].
-      repeat split; auto. right. apply andb_false_iff in X. destruct X as [X|X].
+      repeat split; auto. right. right. apply andb_false_iff in X. destruct X as [X|X].
       * left. apply N.eqb_neq. exact X.
       * right. apply negb_false_iff. exact X.
 Qed.
@@ -1047,9 +1053,31 @@ Lemma hasty_dispatcher_drops :
   d_exited s = true /\ d_delivered s = [1] /\ d_q s = [2].
 Proof. vm_compute. repeat split. Qed.
 
-Lemma resume_conflict_retries : forall c i s, c_up c = true -> c_wclosed c = false ->
+Lemma resume_conflict_retries : forall c i s, fix_f46 (c_cfg c) = true -> c_up c = true -> c_wclosed c = false ->
   find_s i (c_streams c) = Some s -> s_phase s = SResuming -> s_held s = c_gen c ->
   step c (EResumeResp i RespConflict) = (c, [OResumeReq (c_gen c) i (s_down s)]).
 Proof.
-  intros c i s U W Fi P H. cbn. unfold resume_resp_step. rewrite Fi, P, H, N.eqb_refl, W, U. reflexivity.
+  intros c i s X U W Fi P H. cbn. unfold resume_resp_step. rewrite Fi, P, H, N.eqb_refl, W, U, X.
+  rewrite andb_false_r. reflexivity.
 Qed.
+
+Lemma resume_conflict_retries_now : forall evs i s,
+  let c := fst (run (init faithful) evs) in
+  c_up c = true -> c_wclosed c = false ->
+  find_s i (c_streams c) = Some s -> s_phase s = SResuming -> s_held s = c_gen c ->
+  step c (EResumeResp i RespConflict) = (c, [OResumeReq (c_gen c) i (s_down s)]).
+Proof. intros evs i s c. apply resume_conflict_retries. unfold c. rewrite cfg_run. reflexivity. Qed.
+
+(* FORMER code (before 110718a, finding F46 - fixed): a DOWNSTREAM whose resume was answered
+   RESUME_REQUEST_CONFLICT was closed with an error instead of retrying (the retried attempt re-subscribed
+   its alias: "already subscribed") *)
+Lemma downstream_conflict_closes :
+  let r := run (init former) [EStart 0 KOpenDown; EWake 0; EResp 0; ELinkDown; EDetect; ELoop; EWatch 0; EDial true;
+                              ESup 0; EResumeResp 0 RespConflict] in
+  sclosed_of (snd r) = [(0, true)] /\ finals_of (fst r) = [(0, 2)].
+Proof. vm_compute. repeat split. Qed.
+Lemma downstream_conflict_retried_now :
+  let r := run (init faithful) [EStart 0 KOpenDown; EWake 0; EResp 0; ELinkDown; EDetect; ELoop; EWatch 0; EDial true;
+                                ESup 0; EResumeResp 0 RespConflict; EResumeResp 0 RespOk] in
+  sclosed_of (snd r) = [] /\ finals_of (fst r) = [(0, 0)] /\ resumereqs_of (snd r) = [(1, 0, true); (1, 0, true)].
+Proof. vm_compute. repeat split. Qed.
